@@ -297,6 +297,58 @@ theorem c18_accounting_bounded_seq (cfg : Cfg) (hes : 0 < cfg.entrySize) {s : St
   have h := seqOp_eq_run cfg (q.idle 0) q.todo hs
   exact (c18_bounded cfg hes hlim (seqReach_reach hr) q.todo h).2
 
+/-! ## one layer up: the maintenance tick and sets of caches released together -/
+
+/-- **bounded, at the tick level.**  One tick of `CacheMaintainer.RunCleanLoop` - `rotate()`, then unconditionally
+`cleanup()`, and on a gc tick `CleanEmptyGenerations` + `ReleaseBuckets` (`tickOps`, order and unconditional call
+tied to the source by `c18_x_tick`) - that runs without concurrent lookups leaves the accounted size and the bytes held
+by the maps at or below the limit, whether or not the tick opened a new generation: the total may exceed the limit
+while the last generation is still below the 5% that `Rotate` waits for. -/
+theorem c18_tick_bounded (cfg : Cfg) (hes : 0 < cfg.entrySize) (hlim : 0 < cfg.sizeLimit) {s s' : St} {gc : Bool}
+    {outs : List (List Out)} (hr : SeqReach cfg s) (h : runSeq cfg s (tickOps gc) = some (s', outs)) :
+    getSize s' ≤ cfg.sizeLimit ∧ liveSum s'.heap ≤ cfg.sizeLimit := by
+  have hb := tick_bounded hes hlim hr h
+  have hr' := seqReach_runSeq hr h
+  have hacc := c18_accounting cfg hes (seqReach_reach hr') (seqReach_sinv hr').todo
+  exact ⟨hacc ▸ hb, hb⟩
+
+/-- non-vacuity and the point of the statement: 98.7% of the limit in an old generation, 2.6% in the fresh one -
+the tick does NOT rotate (260 < 500) and still cleans: 10130 -> 260 -/
+example :
+    ((runSeq ⟨10000, 52⟩ init ([.newCache, .get 0 1 (.ok 1 9818)] ++ tickOps false ++ [.get 0 2 (.ok 2 208)])).bind fun r =>
+      (runSeq ⟨10000, 52⟩ r.1 (tickOps true)).map fun r' => (getSize r.1, r'.2.head?, getSize r'.1)) =
+      some (10130, some [.rotated false 260], 260) := by decide
+
+/-- **a set of caches released together leaves the cleaner.**  `frac.IndexCache.Release` releases every cache of
+the set (`c18_x_index_cache_release_all`); after that, in any interleaving, none of them holds a map entry, the next
+`ReleaseBuckets` drops every one of them from the bucket list, and the accounted size equals the bytes held by the
+caches that are still alive. -/
+theorem c18_released_set_leaves (cfg : Cfg) (hes : 0 < cfg.entrySize) {s s1 s2 : St} {cs : List Nat} {o1 : List Out}
+    {o2 : Out} (hr : Reach cfg s) (h1 : run cfg s (releaseAllLabels cs) = some (s1, o1))
+    (h2 : step cfg s1 .releaseBuckets = some (s2, o2)) :
+    (∀ c ∈ cs, s2.released c = true ∧ c ∉ s2.buckets ∧ ∀ e ∈ s2.heap, e.cache = c → e.inMap = false) ∧
+      getSize s2 = liveSum s2.heap := by
+  have hrel := (run_releaseAll h1).1
+  have hr1 := run_reach hr h1
+  have hr2 := Reach.step hr1 h2
+  simp only [step] at h2
+  split at h2
+  · rename_i ht
+    simp only [Option.some.injEq, Prod.mk.injEq] at h2
+    have a2 := reach_ainv cfg hes hr2
+    have hs2 : s2.todo = none := by rw [← h2.1]; exact ht
+    refine ⟨fun c hc => ?_, c18_accounting cfg hes hr2 hs2⟩
+    have hrc : s2.released c = true := by rw [← h2.1]; exact hrel c hc
+    refine ⟨hrc, ?_, ?_⟩
+    · rw [← h2.1]
+      simp [releaseBuckets, hrel c hc]
+    · intro e he hec
+      cases hin : e.inMap
+      · rfl
+      · have := (a2.inmap e he hin).2.1
+        rw [hec, hrc] at this; cases this
+  · exact absurd h2 (by simp)
+
 /-! ### historical witnesses: the accounting clause before /repo commit b331fc5
 
 With the three critical sections as they were (`SV.Cache.stepOld`, Model/CacheOld.lean) the clause failed at fully
@@ -435,6 +487,22 @@ theorem c18_x_recreate_copies_all :
       "c.payload = newPayload", "c.maxPayloadSize = len(c.payload)"] ∧
     cacheCleanupMaxEvents = ["if len(c.payload) > c.maxPayloadSize", "c.maxPayloadSize = len(c.payload)", "call delete",
       "call c.recreatePayload"] := by decide
+
+/-- the maintenance tick: `rotate()` and `cleanup()` are consecutive unconditional statements of the tick body,
+`garbageCollection()` is the only conditional one; `rotate` / `cleanup` / `garbageCollection` call `Rotate` / `Cleanup` /
+`CleanEmptyGenerations`, `ReleaseBuckets` on every cleaner -/
+theorem c18_x_tick :
+    tickStatements = ["runs++", "cm.rotate()", "cm.cleanup()", "if runs >= gcRunsCount"] ∧
+    tickGcCalls = ["cm.garbageCollection"] ∧
+    maintainerRotateCalls = ["range cm.cleaners", "cleaner.Rotate"] ∧
+    maintainerCleanupCalls = ["range cm.cleaners", "cleaner.Cleanup"] ∧
+    maintainerGcCalls = ["range cm.cleaners", "cleaner.CleanEmptyGenerations", "cleaner.ReleaseBuckets"] := by decide
+
+/-- `IndexCache.Release` releases every `*cache.Cache` field of `IndexCache` (fields are enumerated from the struct,
+so a field added later must be released too), and nothing else -/
+theorem c18_x_index_cache_release_all :
+    indexCacheFields ≠ [] ∧ indexCacheFields.all (· ∈ indexCacheReleased) = true ∧
+      indexCacheReleased.all (· ∈ indexCacheFields) = true ∧ indexCacheReleaseConds = [] := by decide
 
 /-- `getOrCreate`, `Get`, `GetWithError` as modelled -/
 theorem c18_x_lookup_sections :
